@@ -3,6 +3,7 @@ from __future__ import annotations
 
 import json
 
+from props import c09 as cx          # the extended trace runner of the round-4 sweep lives in props/c09.py
 from props import calib_common as cc
 from props import calib_family as cf
 
@@ -24,17 +25,151 @@ def nontrivial(c, o):
     return bool(kinds & {"set_samplers", "set_scheduler"}) and max((v["batchidx"] for v in o["views"]), default=0) >= 2
 
 
+
+# ------------------------------------------------------------------------------------------------ round 4 (generator sweep)
+MANY = [0, 1, 2, 3, 4, 5, 6, 7, 8, 10, 11, 12, 13, 14, 15]      # token classes TokA..TokI, TokK..TokP (9 = HaltonSampler)
+
+
+def class_name(cls):
+    return "HaltonSampler" if cls == cc.HALTON_CLASS else "Tok" + cc.TOK_LETTERS[cls]
+
+
+def reclass(rng, group, pool):
+    for s in group:
+        s["cls"] = rng.choice(pool)
+
+
+def gen_xcases(chk):
+    """Round 4: more than ten sampler classes (ids >= 10, names that sort differently from their ids), the real HaltonSampler
+    class among the token classes, line-ups as tuples / lists changed afterwards, injected faults, a saving folder that holds
+    ANOTHER run with another table, the folder named as str / Path / with a trailing slash, the RL scheduler, batch sizes
+    reassigned; every case also asks the plotting helper for the NAMES of the ids found in calibration_results.csv."""
+    rng = chk.rng
+    quick = chk.tier == "quick"
+    cases = []
+    for i in range(200 if quick else 1000):
+        kind = i % 6
+        rl = kind == 4
+        c = cc.gen_case(rng, len(cases), max_ops=7 if quick else 11, max_samplers=4,
+                        allow=("calibrate", "set_samplers", "set_scheduler", "checkpoint", "restore"), prec_prob=8, nmax=2, rl=rl)
+        c["x"] = 1
+        c["want_plot"] = c["want_names"] = True
+        groups = [c["samplers"] or c["rl"]["samplers"]] + [op[1] for op in c["ops"] if op[0] in ("set_samplers", "set_scheduler")]
+        if kind == 0:
+            # a first line-up with many classes, so that ids reach two digits; later line-ups add the rest
+            pool = list(MANY)
+            rng.shuffle(pool)
+            first = pool[: rng.randint(9, 14)]
+            for _ in range(rng.below(4)):
+                first.insert(rng.below(len(first) + 1), rng.choice(first))     # repeated classes included
+            c["samplers"] = [{"cls": k, "uid": 100 + j, "bs": 1, "seed": None} for j, k in enumerate(first)]
+            for g in groups[1:]:
+                reclass(rng, g, MANY)
+            c["cfg"]["saving"] = True
+            c["cfg"]["E"] = 1
+        elif kind == 3:
+            for g in groups:
+                reclass(rng, g, [0, 1, 2, cc.HALTON_CLASS, cc.HALTON_CLASS])
+        elif kind == 1:
+            c["cfg"]["saving"] = True
+            pre = cc.gen_samplers(rng, rng.randint(1, 4), 140, 3)
+            reclass(rng, pre, [5, 4, 3, 2, 12])
+            c["prefill"] = {"samplers": pre, "n": rng.randint(1, 4), "E": rng.randint(1, 3), "seed": rng.below(2**31),
+                            "palette": [1.0, 2.0, 3.0], "salt": rng.below(100)}
+            c["ops"] = [["calibrate", rng.randint(0, 2)]] + c["ops"]
+            c["folder_repr"] = rng.choice(["str", "path", "slash"])
+        elif kind == 2:
+            c["lineup_repr"] = "tuple" if rng.below(2) else "list"
+            c["mutate_lineup"] = c["lineup_repr"] == "list"
+            k = rng.choice(["model", "loss", "sampler"])
+            c["fault"] = ["sampler", rng.below(len(c["samplers"])), rng.below(3)] if k == "sampler" else [k, rng.below(8)]
+            c["ops"] += [["calibrate", 2]]
+        elif kind == 4:
+            c["palette"] = [abs(x) + 0.125 for x in c["palette"]]
+            uids = [s["uid"] for s in c["rl"]["samplers"]]
+            c["ops"] = [x for op in c["ops"] for x in ([["set_bs", rng.choice(uids), rng.randint(1, 3)]] if rng.below(3) == 0 else []) + [op]]
+            if rng.below(2):
+                c["rl"]["agent"] = {"alpha": 0.3, "eps": 0.4, "init": 0.0}
+        else:
+            # checkpoint, restore, reconfigure with a class not seen before, an empty calibrate(0), restore again, go on
+            c["cfg"]["saving"] = bool(rng.below(2))
+            extra = []
+            for r in range(rng.randint(1, 2)):
+                new = cc.gen_samplers(rng, rng.randint(1, 3), 120 + 4 * r, 3)
+                reclass(rng, new, [3, 4, 5, 6, 7])
+                extra += [["checkpoint"], ["restore"], [rng.choice(["set_samplers", "set_scheduler"]), new], ["calibrate", 0],
+                          ["checkpoint"], ["restore"], ["calibrate", rng.randint(1, 2)]]
+            c["ops"] = c["ops"][:3] + extra
+            c["folder_repr"] = rng.choice(["str", "path", "slash"])
+        cases.append(c)
+    return cases
+
+
+def oracle_c18_safe(case, obs):
+    """cf.oracle_c18; a history whose rows are not all labelled (a batch that raised after its parameters were recorded and before
+    its labels were - e.g. KeyError on a class that has no id) is an oracle failure, not a harness error."""
+    for k, v in enumerate(obs["views"]):
+        if len(v["methods"]) != len(v["params"]):
+            return [("row-without-label", f"op {k}: {len(v['params'])} parameter rows and {len(v['methods'])} sampler labels "
+                                          f"(outcome {v['exc']})")]
+    return cf.oracle_c18(case, obs)
+
+
+def oracle_c18_x(case, obs):
+    """cf.oracle_c18 + every class of the line-up in force has an id + the NAMES the plotting helper gives for the ids of a
+    saved run are the class names of the samplers that produced the rows + calibrate(0) with a folder leaves the table too."""
+    fails = oracle_c18_safe(case, obs)
+    specs = cf.sampler_specs(case)
+    for k, (op, v, now, new, ran, wrote) in enumerate(cx.in_force(case, obs)):
+        t = dict(v["table"])
+        for u, _, _ in v["samplers"]:
+            if u in specs and specs[u]["cls"] not in t:
+                fails.append(("class-without-id", f"op {k}: class {specs[u]['cls']} of sampler uid {u} is in the line-up and not in the table {v['table']}"))
+                break
+        pn, d = v.get("plot_names"), v.get("disk")
+        if isinstance(pn, str):
+            fails.append(("names-recoverable-error", f"op {k}: _get_samplers_names failed: {pn}"))
+        elif pn is not None and d is not None and "error" not in d:
+            names = {i: n for i, n in pn}
+            for i, tok in enumerate(d["params"]):
+                u = cf.decode(tok)[0]
+                if u in specs and names.get(d["methods"][i]) != class_name(specs[u]["cls"]):
+                    fails.append(("names-identify-class", f"op {k}: saved row {i} (sampler uid {u}, class {class_name(specs[u]['cls'])}) "
+                                                          f"carries id {d['methods'][i]}, which the plotting helper names {names.get(d['methods'][i])}"))
+                    break
+        if op[0] == "calibrate" and op[1] == 0 and wrote and v.get("plot_table") is not None:
+            pt = v["plot_table"]
+            if isinstance(pt, str):
+                fails.append(("table-recoverable-error", f"op {k}: plotting helper failed after calibrate(0): {pt}"))
+            elif dict(pt) != t:
+                fails.append(("table-recoverable-differs", f"op {k}: after calibrate(0) the checkpoint gives {pt}, live table {v['table']}"))
+    return fails
+
 def run(chk, replay=None):
     chk.proof_gate()
     cases = [json.loads(open(replay).read())["case"]] if replay else gen_cases(chk)
-    obs, bad, stats, keys, nontriv = cf.run_traces(chk, cases, cf.oracle_c18, nontrivial, label="C18")
+    xcases = []
+    if replay and cases[0].get("x"):
+        xcases, cases = cases, []
+    elif not replay:
+        xcases = gen_xcases(chk)
+    obs, bad, stats, keys, nontriv = cf.run_traces(chk, cases, oracle_c18_safe, nontrivial, label="C18", shard=50)
+    xobs, xbad, xstats, xkeys, xnontriv = cx.run_traces_x(chk, xcases, oracle_c18_x, nontrivial, label="C18x")
+    stats.update(xstats)
+    stats["x:cases-with-id>=10"] = sum(1 for o in xobs if any(i >= 10 for v in o["views"] for _, i in v["table"]))
     cov = {
-        "evaluations": len(cases), "distinct": len(keys), "distinct_nontrivial": len(nontriv),
+        "evaluations": len(cases) + len(xcases), "distinct": len(keys) + len(xkeys), "distinct_nontrivial": len(nontriv) + len(xnontriv),
+        "extended_cases": len(xcases),
         "rule": "sequences of calibrate / set_samplers / set_scheduler / create_checkpoint / restore over token sampler classes "
                 "(repeated classes included); after every operation the live id table, the labels of all rows and the table the "
-                "plotting helper recovers from the checkpoint are compared; non-trivial = a line-up change and at least 2 batches",
-        "samples": cf.sample_cases(cases, obs),
-        "traces_validated_against_impl": len(cases) - len(bad), "model_impl_disagreements": len(bad),
+                "plotting helper recovers from the checkpoint are compared; round 4: up to 15 token classes + the real HaltonSampler "
+                "(ids >= 10), tuples / lists changed afterwards, faults, a folder holding another run, folder as str / Path / "
+                "trailing slash, RL scheduler, reassigned batch sizes, restore-reconfigure-calibrate(0)-restore sequences, and the "
+                "names _get_samplers_names gives for the ids of calibration_results.csv; non-trivial = a line-up change and at "
+                "least 2 batches",
+        "samples": cf.sample_cases(cases, obs) + cf.sample_cases(xcases, xobs, 2),
+        "traces_validated_against_impl": len(cases) - len(bad) + len(xcases) - len(xbad),
+        "model_impl_disagreements": len(bad) + len(xbad),
         "distribution": dict(sorted(stats.items())),
     }
     return chk.finish(cov, assumptions=cf.ASSUME, trusted=cf.TRUSTED)
